@@ -8,14 +8,31 @@ open CpModel CpModel.Finalize
 
 /-! ### the handler does not lie about its own length -/
 
-/-- Precondition on the *handler* (the property is about the framework's tools): when the handler
-    sets Content-Length itself, either its value is a clean byte body of exactly that length, or
-    the (non-streaming) encode tool is going to discard that header anyway. -/
+/-- the Content-Length in force when the handler's value is assigned: the handler's own, else the one
+    `tools.response_headers` was configured with -/
+def ownCL (p : Plan) : Option Nat :=
+  match p.h.setCL with
+  | some n => some n
+  | none => p.t.rhCL
+
+/-- the length `xmlrpcutil._set_response` declares for the text `t` is the length of its UTF-8 encoding
+    (true for every ASCII text; for every text once the code counts bytes) -/
+def XmlOk (t : List Char) : Prop := xmlLen t = (encodeText .utf8 t).length
+
+/-- Precondition on the *application* (the property is about the framework's tools): when the handler —
+    or the `tools.response_headers` configuration — sets Content-Length, either the handler's value is a
+    clean byte body of exactly that length, or the encode tool is going to discard that header anyway
+    (its buffered branch; its streaming branch too once `encode_stream` is repaired).  An XML-RPC text
+    meets `XmlOk` or goes through the encode tool the same way; an XML-RPC fault text meets `XmlOk`. -/
 def HandlerOk (p : Plan) : Prop :=
-  ∀ n, p.h.setCL = some n →
+  (∀ n, ownCL p = some n →
     (allBytes (prepareIter p.h.shape).chunks = true ∧ (concat (prepareIter p.h.shape).chunks).length = n) ∨
-    (p.t.encode = true ∧ p.t.stream = false ∧ p.h.setStream = false ∧
-      (p.h.ct = .textHtml ∨ p.h.ct = .textPlain))
+    (p.t.encode = true ∧ p.h.ct.isText = true ∧
+      (Gen.C06.encodeStreamKeepsCL = true → p.t.stream = false ∧ p.h.setStream = false))) ∧
+  (∀ t, p.h.shape = .xmlrpcV t →
+    XmlOk t ∨ (p.t.encode = true ∧
+      (Gen.C06.encodeStreamKeepsCL = true → p.t.stream = false ∧ p.h.setStream = false))) ∧
+  (∀ t, p.t.errResp = .xmlrpc t → XmlOk t)
 
 theorem encodeStream_allBytes (cs : Charset) (l : List Chunk) (h : allBytes l = true) : encodeStream cs l = l := by
   induction l with
@@ -30,27 +47,31 @@ theorem encodeStream_allBytes (cs : Charset) (l : List Chunk) (h : allBytes l = 
 /-- the encode wrapper: a returned value that agrees with the current Content-Length still does -/
 theorem encodeStage_CLok (rq : Req) (r : Resp) (body : Body) (h : CLok { r with body := body }) :
     CLok (encodeStage rq r body).1 ∨ (encodeStage rq r body).2 ≠ none := by
-  have hnone : ∀ r' : Resp, r'.hdrs = r.hdrs.del .contentLength → CLok r' :=
-    fun r' hr => CLok_of_none (by rw [hr]; simp)
   unfold encodeStage
   split
   · split
     · split
-      · split
+      · -- streaming: the header is kept (or, once repaired, deleted); bytes chunks pass through unchanged
+        simp only
+        split
         · right; simp
         · left
-          rcases CLok_cases h with h0 | h0 | ⟨n, h0, hb, hl⟩
-          · exact CLok_of_none (by simpa using h0)
-          · exact CLok_of_pyNone (by simpa using h0)
-          · refine CLok_of_nat (n := n) (by simpa using h0) ?_ ?_
-            · simp only at hb ⊢; rw [encodeStream_allBytes _ _ hb]; exact hb
-            · simp only at hb hl ⊢; rw [encodeStream_allBytes _ _ hb]; exact hl
+          split
+          · rcases CLok_cases h with h0 | h0 | ⟨n, h0, hb, hl⟩
+            · exact CLok_of_none (by simpa using h0)
+            · exact CLok_of_pyNone (by simpa using h0)
+            · refine CLok_of_nat (n := n) (by simpa using h0) ?_ ?_
+              · simp only at hb ⊢; rw [encodeStream_allBytes _ _ hb]; exact hb
+              · simp only at hb hl ⊢; rw [encodeStream_allBytes _ _ hb]; exact hl
+          · exact CLok_of_none (by simp)
       · simp only
         split
         · right; simp
         · split
           · right; simp
-          · left; exact CLok_of_none (by simp)
+          · split
+            · right; simp
+            · left; exact CLok_of_none (by simp)
     · split
       · right; simp
       · left; exact h
@@ -58,15 +79,26 @@ theorem encodeStage_CLok (rq : Req) (r : Resp) (body : Body) (h : CLok { r with 
     · right; simp
     · left; exact h
 
-/-- ... and with text Content-Type and no streaming the encode wrapper always drops Content-Length -/
+/-- ... and with a text Content-Type the encode wrapper drops Content-Length: always in its buffered
+    branch, in its streaming branch once `encode_stream` is repaired -/
 theorem encodeStage_drops (rq : Req) (r : Resp) (body : Body) (b : CtBase) (cs : Option Charset)
-    (hct : r.hdrs .contentType = some (.ctype b cs)) (hb : b = .textHtml ∨ b = .textPlain)
-    (hs : r.stream = false) :
+    (hct : r.hdrs .contentType = some (.ctype b cs)) (hb : b.isText = true)
+    (hs : Gen.C06.encodeStreamKeepsCL = true → r.stream = false) :
     (encodeStage rq r body).1.hdrs .contentLength = none := by
   unfold encodeStage
-  simp only [hct, hb, hs]
-  repeat' split
-  all_goals first | (simp; done) | simp_all
+  simp only [hct, hb, if_true]
+  by_cases hk : Gen.C06.encodeStreamKeepsCL = true
+  · simp only [hs hk]
+    repeat' split
+    all_goals first | (simp; done) | simp_all
+  · by_cases hst : r.stream = true
+    · simp only [hst, hk, if_true]
+      repeat' split
+      all_goals first | (simp; done) | simp_all
+    · have hst' : r.stream = false := by simpa using hst
+      simp only [hst']
+      repeat' split
+      all_goals first | (simp; done) | simp_all
 
 theorem assignBody_CLok (rq : Req) (p : Plan) (isStr : Bool) (r : Resp) (body : Body)
     (h : CLok { r with body := body }) :
@@ -89,14 +121,16 @@ theorem serveFile_CLok (pg : Pages) (rq : Req) (b : Bytes) (r : Resp) :
   simp only
   split
   · right; simp
-  · left
-    rename_i start stop _
-    exact CLok_of_nat (n := min stop b.length - start) (by simp only [set_same]) (oneChunk_allBytes _)
-      (by simp only; rw [oneChunk_concat]; apply take_drop_length; omega)
-  · left; exact CLok_of_none (by simp)
-  · left
-    exact CLok_of_nat (n := b.length) (by simp only [set_same]) (oneChunk_allBytes _)
-      (by simp only; rw [oneChunk_concat])
+  · split
+    · right; simp
+    · left
+      rename_i start stop _
+      exact CLok_of_nat (n := min stop b.length - start) (by simp only [set_same]) (oneChunk_allBytes _)
+        (by simp only; rw [oneChunk_concat]; apply take_drop_length; omega)
+    · left; exact CLok_of_none (by simp)
+    · left
+      exact CLok_of_nat (n := b.length) (by simp only [set_same]) (oneChunk_allBytes _)
+        (by simp only; rw [oneChunk_concat])
 
 theorem handlerStatic_CLok (pg : Pages) (rq : Req) (p : Plan) (b : Bytes) (r : Resp) :
     CLok (handlerStatic pg rq p b r).1 ∨ (handlerStatic pg rq p b r).2 ≠ none := by
@@ -122,8 +156,44 @@ theorem handlerFileObj_CLok (rq : Req) (p : Plan) (b : Bytes) (r : Resp) :
   · exact encodeStage_CLok rq _ _ (CLok_of_pyNone (by simp))
   · left; exact CLok_of_pyNone (by simp)
 
+/-- `xmlrpcutil._set_response`: framed exactly when the declared length is the encoded length -/
+theorem xmlrpcSet_CLok (t : List Char) (r : Resp) (h : XmlOk t) : CLok (xmlrpcSet t r) :=
+  CLok_of_nat (n := xmlLen t) (by simp [xmlrpcSet]) (bytesBody_allBytes _)
+    (by simp only [xmlrpcSet]; rw [bytesBody_concat]; exact h.symm)
+
+theorem xmlrpcSet_ct (t : List Char) (r : Resp) :
+    (xmlrpcSet t r).hdrs .contentType = some (.ctype .textXml none) := by
+  simp [xmlrpcSet, Hdrs.set]
+
+theorem handlerXmlrpc_CLok (rq : Req) (p : Plan) (t : List Char) (r : Resp)
+    (hshape : p.h.shape = .xmlrpcV t) (hok : HandlerOk p)
+    (hs : r.stream = (p.t.stream || p.h.setStream)) :
+    CLok (handlerXmlrpc rq p t r).1 ∨ (handlerXmlrpc rq p t r).2 ≠ none := by
+  have key : CLok (if p.t.encode then encodeStage rq (xmlrpcSet t r) (xmlrpcSet t r).body
+                   else (xmlrpcSet t r, none)).1 ∨
+             (if p.t.encode then encodeStage rq (xmlrpcSet t r) (xmlrpcSet t r).body
+                   else (xmlrpcSet t r, none)).2 ≠ none := by
+    rcases hok.2.1 t hshape with hx | ⟨he, hst⟩
+    · split
+      · exact encodeStage_CLok rq _ _ (xmlrpcSet_CLok t r hx)
+      · left; exact xmlrpcSet_CLok t r hx
+    · left
+      simp only [he, if_true]
+      apply CLok_of_none
+      apply encodeStage_drops rq _ _ .textXml none (xmlrpcSet_ct t r) rfl
+      intro hk
+      have := hst hk
+      show r.stream = false
+      rw [hs, this.1, this.2]; rfl
+  unfold handlerXmlrpc
+  split
+  · right; simp
+  · right; simp
+  · right; simp
+  · exact key
+
 theorem handlerPlain_CLok (rq : Req) (p : Plan) (shape : Shape) (r : Resp)
-    (hshape : shape = p.h.shape) (hok : HandlerOk p) (hcl : r.hdrs .contentLength = none)
+    (hshape : shape = p.h.shape) (hok : HandlerOk p) (hcl : r.hdrs .contentLength = p.t.rhCL.map HVal.nat)
     (hct : r.hdrs .contentType = some (.ctype p.h.ct none))
     (hs : r.stream = (p.t.stream || p.h.setStream)) :
     CLok (handlerPlain rq p shape r).1 ∨ (handlerPlain rq p shape r).2 ≠ none := by
@@ -135,22 +205,31 @@ theorem handlerPlain_CLok (rq : Req) (p : Plan) (shape : Shape) (r : Resp)
       CLok (assignBody rq p (shapeIsStr p.h.shape) r1 (prepareIter p.h.shape)).1 ∨
       (assignBody rq p (shapeIsStr p.h.shape) r1 (prepareIter p.h.shape)).2 ≠ none := by
     intro r1 hh hst
-    cases hset : p.h.setCL with
+    have hr1 : r1.hdrs .contentLength = (ownCL p).map HVal.nat := by
+      unfold ownCL
+      cases hset : p.h.setCL with
+      | none => rw [hset] at hh; rw [hh]; exact hcl
+      | some n => rw [hset] at hh; rw [hh]; simp
+    have hr1ct : r1.hdrs .contentType = some (.ctype p.h.ct none) := by
+      cases hset : p.h.setCL with
+      | none => rw [hset] at hh; rw [hh]; exact hct
+      | some n => rw [hset] at hh; rw [hh]; simpa using hct
+    cases hown : ownCL p with
     | none =>
-      rw [hset] at hh
-      exact assignBody_CLok _ _ _ _ _ (CLok_of_none (by simp only; rw [hh]; exact hcl))
+      rw [hown] at hr1
+      exact assignBody_CLok _ _ _ _ _ (CLok_of_none (by simpa using hr1))
     | some n =>
-      rw [hset] at hh
-      rcases hok n hset with ⟨hb, hl⟩ | ⟨he, hs1, hs2, hb⟩
-      · exact assignBody_CLok _ _ _ _ _ (CLok_of_nat (n := n) (by simp only; rw [hh]; simp) hb hl)
+      rw [hown] at hr1
+      rcases hok.1 n hown with ⟨hb, hl⟩ | ⟨he, hb, hstr⟩
+      · exact assignBody_CLok _ _ _ _ _ (CLok_of_nat (n := n) (by simpa using hr1) hb hl)
       · left
         unfold assignBody
         simp only [he, if_true]
         apply CLok_of_none
-        apply encodeStage_drops rq r1 _ p.h.ct none
-        · rw [hh]; simpa using hct
-        · exact hb
-        · rw [hst, hs, hs1, hs2]; rfl
+        apply encodeStage_drops rq r1 _ p.h.ct none hr1ct hb
+        intro hk
+        have := hstr hk
+        rw [hst, hs, this.1, this.2]; rfl
   unfold handlerPlain
   simp only
   split
@@ -164,18 +243,22 @@ theorem handlerPlain_CLok (rq : Req) (p : Plan) (shape : Shape) (r : Resp)
     · cases p.h.setCL <;> rfl
     · cases p.h.setCL <;> rfl
 
-/-- the handler stage on a fresh response: it returns with the invariant, or it raises -/
-theorem handlerStage_CLok (pg : Pages) (rq : Req) (p : Plan) (hok : HandlerOk p) :
-    CLok (handlerStage pg rq p (freshResp p.t)).1 ∨ (handlerStage pg rq p (freshResp p.t)).2 ≠ none := by
+/-- the handler stage on the response the earlier stages hand over (Content-Length as configured by
+    `tools.response_headers`, if at all): it returns with the invariant, or it raises -/
+theorem handlerStage_CLok (pg : Pages) (rq : Req) (p : Plan) (hok : HandlerOk p) (r : Resp)
+    (hcl : r.hdrs .contentLength = p.t.rhCL.map HVal.nat) (hs : r.stream = p.t.stream) :
+    CLok (handlerStage pg rq p r).1 ∨ (handlerStage pg rq p r).2 ≠ none := by
   unfold handlerStage
   simp only
   split
   · exact handlerStatic_CLok ..
   · exact handlerFileObj_CLok ..
+  · rename_i t hsh
+    exact handlerXmlrpc_CLok rq p t _ hsh hok (by simp [hs])
   · apply handlerPlain_CLok rq p _ _ rfl hok
-    · simp [freshResp]
+    · simpa using hcl
     · simp
-    · simp [freshResp]
+    · simp [hs]
 
 
 /-! ### the cache only ever holds self-consistent entries -/
@@ -244,19 +327,21 @@ theorem teeDone_ok (c : Option Cache) (rq : Req) (r : Resp) (code : Nat) (c' : O
   split at h
   · cases h; exact hc
   · split at h
-    · cases h
-    · rename_i b hj
-      split at h
-      · cases h; exact CacheOk_none
+    · cases h; exact hc
+    · split at h
       · cases h
-        apply cachePut_ok _ _ _ hc
-        have ⟨hab, hcb⟩ := join_some hj
-        unfold EntryOk
-        simp only
-        rcases CLok_cases hr with h0 | h0 | ⟨n, h0, _, hl⟩
-        · simp [h0]
-        · simp [h0]
-        · simp only [h0]; rw [← hcb]; exact hl
+      · rename_i b hj
+        split at h
+        · cases h; exact CacheOk_none
+        · cases h
+          apply cachePut_ok _ _ _ hc
+          have ⟨hab, hcb⟩ := join_some hj
+          unfold EntryOk
+          simp only
+          rcases CLok_cases hr with h0 | h0 | ⟨n, h0, _, hl⟩
+          · simp [h0]
+          · simp [h0]
+          · simp only [h0]; rw [← hcb]; exact hl
 
 /-- a cache hit yields a response that satisfies the invariant -/
 theorem hit_CLok (r : Resp) (ent : Entry) (h : EntryOk ent) :
@@ -279,50 +364,60 @@ theorem hit_CLok (r : Resp) (ent : Entry) (h : EntryOk ent) :
 
 def codeOf (r : Resp) : Nat := r.status.getD 200
 
-/-- What `finalize` leaves behind: the invariant, and for a non-streamed response the framing the
-    statement asks for. -/
+/-- the statuses a streamed finalize strips are the ones a buffered finalize strips (both tables are read from
+    the live code: `finalize` tests the bodiless statuses before it looks at `stream`) -/
+theorem noBodyStream_table_spec : Gen.C06.noBodyStreamCodes = Gen.C06.noBodyCodes := by decide +kernel
+
+theorem strips_eq (stream : Bool) (c : Nat) : strips stream c = noBody c := by
+  unfold strips noBodyS noBody
+  rw [noBodyStream_table_spec]
+  split <;> rfl
+
+/-- What `finalize` leaves behind: the invariant; for a bodiless status (1xx / 204 / 205 / 304) neither a
+    Content-Length nor a body chunk — *whether or not the response is streamed*; for any other status of a
+    non-streamed response a numeric Content-Length. -/
 def Framed (r : Resp) : Prop :=
-  CLok r ∧ (r.stream = false →
-    if noBody (codeOf r) = true then r.hdrs .contentLength = none ∧ r.body.chunks = []
-    else ∃ n, r.hdrs .contentLength = some (.nat n))
+  CLok r ∧
+  (noBody (codeOf r) = true → r.hdrs .contentLength = none ∧ r.body.chunks = []) ∧
+  (r.stream = false → noBody (codeOf r) = false → ∃ n, r.hdrs .contentLength = some (.nat n))
 
 theorem finalize_ok (rq : Req) (s : St) (hc : CacheOk s.cache) (hr : CLok s.r) :
     CacheOk (finalize rq s).1.cache ∧ CLok (finalize rq s).1.r ∧
     ((finalize rq s).2 = none → Framed (finalize rq s).1.r) ∧
     (∀ c, (finalize rq s).2 ≠ some (.redirect c)) := by
   unfold finalize
-  simp only
+  simp only [strips_eq]
   split
   · exact ⟨hc, hr, by simp, by simp⟩
   · rename_i code hv
     split
-    · -- streaming
-      rename_i hs
+    · -- a bodiless status: stripped, streamed or not
+      rename_i hnb
       split
-      · have hk : CLok { s.r with status := some code, hdrs := s.r.hdrs.del .contentLength } :=
-          CLok_of_none (by simp)
-        exact ⟨hc, hk, fun _ => ⟨hk, by simp [hs]⟩, by simp⟩
-      · have hk : CLok { s.r with status := some code } := CLok_congr rfl rfl hr
-        exact ⟨hc, hk, fun _ => ⟨hk, by simp [hs]⟩, by simp⟩
-    · rename_i hs
-      split
-      · -- no-body status
-        rename_i hnb
-        split
+      · exact ⟨hc, CLok_of_none (by simp), by simp, by simp⟩
+      · split
         · exact ⟨hc, CLok_of_none (by simp), by simp, by simp⟩
-        · split
-          · exact ⟨hc, CLok_of_none (by simp), by simp, by simp⟩
-          · rename_i c' htee
-            refine ⟨?_, CLok_of_none (by simp), ?_, by simp⟩
-            · exact teeDone_ok s.cache rq _ code c' hc (CLok_of_none (by simp)) htee
-            · intro _
-              exact ⟨CLok_of_none (by simp), fun _ => by simp [codeOf, hnb]⟩
-      · rename_i hnb
-        have hk : CLok { s.r with status := some code } := CLok_congr rfl rfl hr
+        · rename_i c' htee
+          refine ⟨?_, CLok_of_none (by simp), ?_, by simp⟩
+          · exact teeDone_ok s.cache rq _ code c' hc (CLok_of_none (by simp)) htee
+          · intro _
+            exact ⟨CLok_of_none (by simp), fun _ => ⟨by simp, rfl⟩, fun _ h => by simp [codeOf, hnb] at h⟩
+    · rename_i hnb
+      have hnb' : noBody code = false := by simpa using hnb
+      split
+      · -- streaming
+        rename_i hs
+        split
+        · have hk : CLok { s.r with status := some code, hdrs := s.r.hdrs.del .contentLength } :=
+            CLok_of_none (by simp)
+          exact ⟨hc, hk, fun _ => ⟨hk, fun h => by simp [codeOf, hnb'] at h, fun h => by simp [hs] at h⟩, by simp⟩
+        · have hk : CLok { s.r with status := some code } := CLok_congr rfl rfl hr
+          exact ⟨hc, hk, fun _ => ⟨hk, fun h => by simp [codeOf, hnb'] at h, fun h => by simp [hs] at h⟩, by simp⟩
+      · have hk : CLok { s.r with status := some code } := CLok_congr rfl rfl hr
         have keep : ∀ n, s.r.hdrs .contentLength = some (.nat n) →
             Framed { s.r with status := some code } := by
           intro n hn
-          exact ⟨hk, fun _ => by simp [codeOf, hnb]; exact ⟨n, hn⟩⟩
+          exact ⟨hk, fun h => by simp [codeOf, hnb'] at h, fun _ _ => ⟨n, hn⟩⟩
         split
         · rename_i n hn
           exact ⟨hc, hk, fun _ => keep n hn, by simp⟩
@@ -343,7 +438,7 @@ theorem finalize_ok (rq : Req) (s : St) (hc : CacheOk s.cache) (hr : CLok s.r) :
               · refine teeDone_ok s.cache rq _ code c' hc ?_ htee
                 exact CLok_of_nat (n := b.length) (by simp only [set_same]) hab (by rw [hcb])
               · intro _
-                exact ⟨hnew, fun _ => by simp [codeOf, hnb]⟩
+                exact ⟨hnew, fun h => by simp [codeOf, hnb'] at h, fun _ _ => ⟨b.length, by simp⟩⟩
 
 
 /-! ### the request pipeline -/
@@ -367,31 +462,33 @@ theorem bareResp_Framed (pg : Pages) (r : Resp) : Framed (bareResp pg r) := by
   have hk : CLok (bareResp pg r) :=
     CLok_of_nat (n := pg.bare.length) (by simp [bareResp]) (by simp [bareResp, allBytes])
       (by simp [bareResp, concat])
-  refine ⟨hk, fun _ => ?_⟩
   have : codeOf (bareResp pg r) = 500 := rfl
-  rw [this, noBody_500]
-  exact ⟨pg.bare.length, by simp [bareResp]⟩
+  refine ⟨hk, fun h => ?_, fun _ _ => ⟨pg.bare.length, by simp [bareResp]⟩⟩
+  rw [this, noBody_500] at h
+  cases h
 
-theorem handleError_ok (pg : Pages) (rq : Req) (fails : Bool) (s s' : St) (hc : CacheOk s.cache)
-    (h : handleError pg rq fails s = some s') : Framed s'.r ∧ CacheOk s'.cache := by
-  unfold handleError at h
-  have h1 := setError_CLok pg 500 s.r
+/-- `request.error_response()`: the default (HTTPError(500).set_response), a callable that follows the rule,
+    and the XML-RPC fault (under `XmlOk`) establish the invariant when they return -/
+theorem errorResponse_CLok (pg : Pages) (er : ErrResp) (r : Resp) (herr : ∀ t, er = .xmlrpc t → XmlOk t) :
+    (errorResponse pg er r).2 = none → CLok (errorResponse pg er r).1 := by
+  unfold errorResponse
+  split
+  · intro _; exact setError_CLok pg 500 r
+  · intro _; exact CLok_of_none (by simp)
+  · rename_i t
+    intro _; exact CLok_congr rfl rfl (xmlrpcSet_CLok t r (herr t rfl))
+  · intro h; cases h
+
+theorem finalize_some_ok (rq : Req) (s s' : St) (hc : CacheOk s.cache) (hr : CLok s.r)
+    (h : (match finalize rq s with | (s', none) => some s' | _ => none) = some s') :
+    Framed s'.r ∧ CacheOk s'.cache := by
+  have hf := finalize_ok rq s hc hr
   split at h
+  · rename_i s1 hfin
+    cases h
+    rw [hfin] at hf
+    exact ⟨hf.2.2.1 rfl, hf.1⟩
   · cases h
-  split at h
-  · cases h
-  · rename_i r heq
-    rw [heq] at h1
-    have hf := finalize_ok rq { s with r := r } hc h1
-    split at h
-    · rename_i s1 hfin
-      cases h
-      rw [hfin] at hf
-      exact ⟨hf.2.2.1 rfl, hf.1⟩
-    · rename_i s1 c hfin
-      rw [hfin] at hf
-      exact absurd rfl (hf.2.2.2 c)
-    · cases h
 
 theorem setResponse_ok (pg : Pages) (e : Exn) (r r' : Resp) (h : setResponse pg e r = (r', none)) : CLok r' := by
   cases e with
@@ -410,17 +507,39 @@ theorem setResponse_ok (pg : Pages) (e : Exn) (r r' : Resp) (h : setResponse pg 
     · cases h
   | exc => simp [setResponse] at h
 
-theorem recover_ok (pg : Pages) (rq : Req) (fails cached : Bool) (hooks : List Step) (first : St × Option Exn)
+theorem handleError_ok (pg : Pages) (rq : Req) (fails : Bool) (er : ErrResp) (s s' : St) (hc : CacheOk s.cache)
+    (herr : ∀ t, er = .xmlrpc t → XmlOk t)
+    (h : handleError pg rq fails er s = some s') : Framed s'.r ∧ CacheOk s'.cache := by
+  unfold handleError at h
+  have h1 := errorResponse_CLok pg er s.r herr
+  split at h
+  · cases h
+  split at h
+  · -- error_response raised HTTPRedirect: its set_response, then finalize
+    rename_i r c heq
+    split at h
+    · rename_i r' hset
+      have hr' : CLok r' := setResponse_ok pg (.redirect c) r r' (by simpa [setResponse] using hset)
+      exact finalize_some_ok rq { s with r := r' } s' hc hr' h
+    · cases h
+  · cases h
+  · rename_i r heq
+    rw [heq] at h1
+    exact finalize_some_ok rq { s with r := r } s' hc (h1 rfl) h
+
+theorem recover_ok (pg : Pages) (rq : Req) (fails : Bool) (er : ErrResp) (cached : Bool) (hooks : List Step)
+    (first : St × Option Exn)
     (s' : St) (hc : CacheOk first.1.cache) (hf : first.2 = none → Framed first.1.r)
-    (h : recover pg rq fails cached hooks first = some s') : Framed s'.r ∧ CacheOk s'.cache := by
+    (herr : ∀ t, er = .xmlrpc t → XmlOk t)
+    (h : recover pg rq fails er cached hooks first = some s') : Framed s'.r ∧ CacheOk s'.cache := by
   unfold recover at h
   split at h
   · cases h; exact ⟨hf rfl, hc⟩
-  · exact handleError_ok pg rq fails _ s' hc h
+  · exact handleError_ok pg rq fails er _ s' hc herr h
   · rename_i s e _
     split at h
     · rename_i r0 _ _
-      exact handleError_ok pg rq fails ⟨r0, s.cache⟩ s' hc h
+      exact handleError_ok pg rq fails er ⟨r0, s.cache⟩ s' hc herr h
     · rename_i r hset
       have hr := setResponse_ok pg e s.r r hset
       have h2 := hooksAndFinalize_ok pg rq cached hooks { s with r := r } hc hr
@@ -431,7 +550,7 @@ theorem recover_ok (pg : Pages) (rq : Req) (fails cached : Bool) (hooks : List S
         exact ⟨h2.2 rfl, h2.1⟩
       · rename_i s1 e1 heq
         rw [heq] at h2
-        exact handleError_ok pg rq fails _ s' h2.1 h
+        exact handleError_ok pg rq fails er _ s' h2.1 herr h
 
 theorem find_ok {c : Option Cache} {rq : Req} {ent : Entry} (hc : CacheOk c)
     (h : c.bind (·.find rq) = some ent) : EntryOk ent := by
@@ -441,31 +560,106 @@ theorem find_ok {c : Option Cache} {rq : Req} {ent : Entry} (hc : CacheOk c)
     simp only [Option.bind_some, Cache.find] at h
     exact hc c0 rfl _ (lookup_mem h)
 
+/-- the static tool: an exception, or it declined (response untouched), or its framed response -/
+theorem staticToolStage_ok (pg : Pages) (rq : Req) (p : Plan) (r : Resp) :
+    (staticToolStage pg rq p r).2.1 = none →
+      ((staticToolStage pg rq p r).2.2 = true → (staticToolStage pg rq p r).1 = r) ∧
+      ((staticToolStage pg rq p r).2.2 = false → CLok (staticToolStage pg rq p r).1) := by
+  unfold staticToolStage
+  split
+  · rename_i b _
+    split
+    · have hsf := serveFile_CLok pg rq b
+        { r with hdrs := r.hdrs.set .contentType (.ctype p.h.ct none), src := .handler }
+      split
+      · intro h; cases h
+      · rename_i r' heq
+        rw [heq] at hsf
+        intro _
+        refine ⟨fun h => (by cases h), fun _ => ?_⟩
+        rcases hsf with h | h
+        · exact h
+        · exact absurd rfl h
+    · intro _
+      exact ⟨fun _ => rfl, fun h => by cases h⟩
+  · intro _
+    exact ⟨fun _ => rfl, fun h => by cases h⟩
+
+/-- before_handler up to priority 60: either an exception, or a response on which the page handler is still to
+    run (Content-Length as `tools.response_headers` left it), or the static tool's framed response -/
+theorem beforeHandlerTools_ok (pg : Pages) (rq : Req) (p : Plan) :
+    (beforeHandlerTools pg rq p (freshResp rq p.t)).2.1 = none →
+      ((beforeHandlerTools pg rq p (freshResp rq p.t)).2.2 = true →
+        (beforeHandlerTools pg rq p (freshResp rq p.t)).1.hdrs .contentLength = p.t.rhCL.map HVal.nat ∧
+        (beforeHandlerTools pg rq p (freshResp rq p.t)).1.stream = p.t.stream) ∧
+      ((beforeHandlerTools pg rq p (freshResp rq p.t)).2.2 = false →
+        CLok (beforeHandlerTools pg rq p (freshResp rq p.t)).1) := by
+  have hfresh : (jsonOutStage p (freshResp rq p.t)).hdrs .contentLength = p.t.rhCL.map HVal.nat ∧
+      (jsonOutStage p (freshResp rq p.t)).stream = p.t.stream := by
+    unfold jsonOutStage
+    split <;> simp [freshResp, Hdrs.set]
+  have hst := staticToolStage_ok pg rq p (jsonOutStage p (freshResp rq p.t))
+  unfold beforeHandlerTools
+  generalize staticToolStage pg rq p (jsonOutStage p (freshResp rq p.t)) = st at hst ⊢
+  obtain ⟨r, e, todo⟩ := st
+  cases e with
+  | some e => simp only; intro h; cases h
+  | none =>
+    simp only at hst ⊢
+    split
+    · intro h; cases h
+    · intro _
+      refine ⟨fun h => ?_, fun h => (hst trivial).2 h⟩
+      rw [(hst trivial).1 h]
+      exact hfresh
+
+theorem runHandler_CLok (pg : Pages) (rq : Req) (p : Plan) (hok : HandlerOk p) (todo : Bool) (r : Resp)
+    (h1 : todo = true → r.hdrs .contentLength = p.t.rhCL.map HVal.nat ∧ r.stream = p.t.stream)
+    (h2 : todo = false → CLok r) :
+    (runHandler pg rq p todo r).2 = none → CLok (runHandler pg rq p todo r).1 := by
+  unfold runHandler
+  cases todo with
+  | true =>
+    simp only [if_true]
+    intro h
+    rcases handlerStage_CLok pg rq p hok r (h1 rfl).1 (h1 rfl).2 with h' | h'
+    · exact h'
+    · exact absurd h h'
+  | false =>
+    intro _
+    exact h2 rfl
+
 theorem beforeAndHandler_ok (pg : Pages) (rq : Req) (p : Plan) (cache : Option Cache)
     (hok : HandlerOk p) (hc : CacheOk cache) :
     CacheOk (beforeAndHandler pg rq p cache).1.cache ∧
     ((beforeAndHandler pg rq p cache).2.1 = none → CLok (beforeAndHandler pg rq p cache).1.r) := by
-  have hh := handlerStage_CLok pg rq p hok
-  have hres : (handlerStage pg rq p (freshResp p.t)).2 = none → CLok (handlerStage pg rq p (freshResp p.t)).1 := by
-    intro h
-    rcases hh with h' | h'
-    · exact h'
-    · exact absurd h h'
+  have hb := beforeHandlerTools_ok pg rq p
   unfold beforeAndHandler
   simp only
   split
-  · split
-    · exact ⟨CacheOk_none, hres⟩
-    · split
-      · exact ⟨hc, hres⟩
+  · exact ⟨hc, by simp⟩
+  · generalize beforeHandlerTools pg rq p (freshResp rq p.t) = bt at hb ⊢
+    obtain ⟨r, e, todo⟩ := bt
+    cases e with
+    | some e => exact ⟨hc, by simp⟩
+    | none =>
+      simp only at hb ⊢
+      have hres := runHandler_CLok pg rq p hok todo r (hb trivial).1 (hb trivial).2
+      split
       · split
-        · rename_i ent hfind
-          split
-          · exact ⟨hc, by simp⟩
-          · exact ⟨hc, fun _ => hit_CLok _ ent (find_ok hc hfind)⟩
+        · exact ⟨CacheOk_none, hres⟩
+        · split
           · exact ⟨hc, hres⟩
-        · exact ⟨hc, hres⟩
-  · exact ⟨hc, hres⟩
+          · split
+            · rename_i ent hfind
+              split
+              · exact ⟨hc, by simp⟩
+              · split
+                · exact ⟨hc, by simp⟩
+                · exact ⟨hc, fun _ => hit_CLok _ ent (find_ok hc hfind)⟩
+              · exact ⟨hc, hres⟩
+            · exact ⟨hc, hres⟩
+      · exact ⟨hc, hres⟩
 
 theorem firstPass_ok (pg : Pages) (rq : Req) (p : Plan) (cache : Option Cache)
     (hok : HandlerOk p) (hc : CacheOk cache) :
@@ -493,7 +687,7 @@ theorem respond_ok (pg : Pages) (rq : Req) (p : Plan) (cache : Option Cache)
   simp only at hf ⊢
   split
   · rename_i s hrec
-    exact recover_ok pg rq p.t.errFails cached hooks first s hf.1 hf.2 hrec
+    exact recover_ok pg rq p.t.errFails p.t.errResp cached hooks first s hf.1 hf.2 hok.2.2 hrec
   · exact ⟨bareResp_Framed pg _, hf.1⟩
 
 end CpProofs.C06
